@@ -58,6 +58,8 @@ func zzC09_bls_sign_verify(sigLen, msgLen, hasherKind int) {
 	if sigLen != SignatureLenBLSBLS12381 {
 		verifAssert(!ok, "BLSVerifyPOP: wrong-length PoP is a false verdict")
 	}
+	pop, err := BLSGeneratePOP(sk)
+	verifAssert(bAnd(err == nil, len(pop) == SignatureLenBLSBLS12381), "BLSGeneratePOP on a BLS key")
 	_ = IsBLSSignatureIdentity(sig)
 	_ = Signature(sig).String()
 	_ = Signature(sig).Bytes()
@@ -139,8 +141,14 @@ func zzC09_aggregate(n, sigLen, shape int) {
 	sks := make([]PrivateKey, n)
 	msgs := make([][]byte, n)
 	hs := make([]hash.Hasher, n)
+	good, _ := sk.Sign(msg, h)
 	for i := 0; i < n; i++ {
-		sigs[i] = nondetBytes(sigLen)
+		// contents of well-formed-length signatures are the subject of C01-C05; here a correct one is used
+		if sigLen == SignatureLenBLSBLS12381 {
+			sigs[i] = good
+		} else {
+			sigs[i] = nondetBytes(sigLen)
+		}
 		pks[i] = pk
 		sks[i] = sk
 		msgs[i] = msg
@@ -181,6 +189,9 @@ func zzC09_aggregate(n, sigLen, shape int) {
 		verifAssert(IsNotBLSKeyError(err), "RemoveBLSPublicKeys: nil / foreign element is not a BLS key")
 	}
 	sig := nondetBytes(sigLen)
+	if sigLen == SignatureLenBLSBLS12381 {
+		sig = good
+	}
 	ok, err := VerifyBLSSignatureOneMessage(pks, sig, msg, h)
 	verifAssert(bOr(!ok, err == nil), "VerifyBLSSignatureOneMessage: no true verdict together with an error")
 	if n == 0 {
@@ -205,29 +216,127 @@ func zzC09_aggregate(n, sigLen, shape int) {
 // zzC09_threshold_stateless: BLSReconstructThresholdSignature / BLSThresholdKeyGen / EnoughShares / constructors with
 // arbitrary integers, share lengths and list sizes
 func zzC09_threshold_stateless(nShares, shareLen, seedLen int) {
-	size, thr := nondetInt(), nondetInt()
 	shares := make([]Signature, nShares)
 	signers := make([]int, nShares)
 	for i := range shares {
 		shares[i] = nondetBytes(shareLen)
 		signers[i] = nondetInt()
 	}
+	// (1) every rejected (size, threshold) pair, symbolically
+	size, thr := nondetInt(), nondetInt()
+	verifAssume(bOr(bOr(size < ThresholdSignMinSize, size > ThresholdSignMaxSize), bOr(thr < MinimumThreshold, thr >= size)))
 	sig, err := BLSReconstructThresholdSignature(size, thr, shares, signers)
+	verifAssert(bAnd(sig == nil, IsInvalidInputsError(err)), "out-of-range size / threshold is an invalid-input error")
+	_, _ = EnoughShares(thr, nShares)
+	// (2) accepted configurations up to size 4 (the flattening buffer is linear in the threshold), signer indices symbolic
+	size = nondetRange(2, 4)
+	thr = nondetRange(1, 3)
+	// signer indices: far out-of-range values symbolically, then concrete values in and around the range
+	// (the interpolation runs on concrete signer sets)
+	if nShares > 0 {
+		far := make([]int, nShares)
+		copy(far, signers)
+		verifAssume(bOr(far[nShares-1] < -1, far[nShares-1] > 4))
+		for i := 0; i < nShares-1; i++ {
+			far[i] = i
+		}
+		_, err = BLSReconstructThresholdSignature(size, thr, shares, far)
+		verifAssert(err != nil, "a far out-of-range signer index is an error")
+		for i := range signers {
+			signers[i] = i
+		}
+		signers[0] = nondetRange(-1, 4)
+	}
+	sig, err = BLSReconstructThresholdSignature(size, thr, shares, signers)
 	verifAssert(bOr(sig == nil, err == nil), "no signature together with an error")
 	if shareLen != SignatureLenBLSBLS12381 {
 		verifAssert(sig == nil, "shares of the wrong length never reconstruct a signature")
 	}
-	_, _ = EnoughShares(thr, nShares)
+	if err != nil {
+		verifAssert(bOr(bOr(IsInvalidInputsError(err), IsNotEnoughSharesError(err)), bOr(IsDuplicatedSignerError(err), IsInvalidSignatureError(err))), "rejection is one of the documented typed errors")
+	}
+	verifReach("threshold stateless")
+}
+
+// zzC09_threshold_keygen: BLSThresholdKeyGen with arbitrary integers and seed lengths
+func zzC09_threshold_keygen(seedLen int) {
 	seed := nondetBytes(seedLen)
 	s2, t2 := nondetInt(), nondetInt()
-	verifAssume(bOr(bOr(s2 < ThresholdSignMinSize, s2 > ThresholdSignMaxSize), bOr(t2 < MinimumThreshold, bOr(t2 >= s2, bOr(seedLen < KeyGenSeedMinLen, seedLen > KeyGenSeedMaxLen)))))
-	_, _, _, err = BLSThresholdKeyGen(s2, t2, seed)
-	verifAssert(IsInvalidInputsError(err), "BLSThresholdKeyGen rejects out-of-range arguments with an invalid-input error")
-	verifReach("threshold stateless")
+	verifAssume(bOr(bOr(s2 < ThresholdSignMinSize, s2 > ThresholdSignMaxSize), bOr(t2 < MinimumThreshold, t2 >= s2)))
+	_, _, _, err := BLSThresholdKeyGen(s2, t2, seed)
+	verifAssert(IsInvalidInputsError(err), "BLSThresholdKeyGen rejects out-of-range size / threshold with an invalid-input error")
+	sks, pks, gpk, err := BLSThresholdKeyGen(3, 1, seed)
+	if seedLen < KeyGenSeedMinLen {
+		// (only a minimum length is documented for this seed; it is smoothed through SHA3-256)
+		verifAssert(bAnd(sks == nil, IsInvalidInputsError(err)), "BLSThresholdKeyGen rejects seeds that are too short with an invalid-input error")
+	} else {
+		verifAssert(bAnd(err == nil, bAnd(len(sks) == 3, bAnd(len(pks) == 3, gpk != nil))), "BLSThresholdKeyGen accepts a valid configuration")
+	}
+	verifReach("threshold keygen")
 }
 
 // zzC09_threshold_stateful: inspector / participant methods with arbitrary indices and share lengths, then reconstruction
 func zzC09_threshold_stateful(shareLen int, trusted bool) {
+	seed := nondetBytes(KeyGenSeedMinLen)
+	sks, pks, gpk, _ := BLSThresholdKeyGen(3, 1, seed)
+	msg := nondetBytes(2)
+	ts, err := NewBLSThresholdSignatureInspector(gpk, pks, 1, msg, "c09-tag")
+	verifAssume(err == nil)
+	idx := nondetInt()
+	share := nondetBytes(shareLen)
+	if shareLen == SignatureLenBLSBLS12381 {
+		// well-formed length: the share of signer 0 (valid for index 0 only); contents are the subject of C06
+		share, _ = sks[0].Sign(msg, testHasher("c09-tag"))
+	}
+	ok, err := ts.VerifyShare(idx, share)
+	if idx < 0 || idx >= 3 {
+		verifAssert(bAnd(!ok, IsInvalidInputsError(err)), "VerifyShare: out-of-range index is an invalid-input error")
+	} else if shareLen != SignatureLenBLSBLS12381 {
+		verifAssert(bAnd(!ok, err == nil), "VerifyShare: wrong-length share is a false verdict")
+	}
+	_, err = ts.HasShare(idx)
+	verifAssert((err != nil) == (idx < 0 || idx >= 3), "HasShare: error exactly for out-of-range indices")
+	_, _ = ts.VerifyThresholdSignature(share)
+	// additions: the index is again arbitrary, but split into concrete values in and around the range so
+	// that the interpolation below runs on concrete signer sets (huge values behave like -1 / 3: rejected above)
+	big := nondetInt()
+	verifAssume(bOr(big < -1, big > 3))
+	_, err = ts.TrustedAdd(big, share)
+	verifAssert(IsInvalidInputsError(err), "TrustedAdd: far out-of-range index is an invalid-input error")
+	_, _, err = ts.VerifyAndAdd(big, share)
+	verifAssert(IsInvalidInputsError(err), "VerifyAndAdd: far out-of-range index is an invalid-input error")
+	idx = nondetRange(-1, 3)
+	if trusted {
+		_, err = ts.TrustedAdd(idx, share)
+		verifAssert((err != nil) == (idx < 0 || idx >= 3), "TrustedAdd: error exactly for out-of-range indices on a fresh object")
+		idx2 := 1 // (arbitrary second indices are covered by the symbolic first one: the object treats calls alike)
+		share2 := nondetBytes(shareLen)
+		if shareLen == SignatureLenBLSBLS12381 {
+			share2, _ = sks[1].Sign(msg, testHasher("c09-tag"))
+		}
+		_, _ = ts.TrustedAdd(idx2, share2)
+	} else {
+		v, _, err := ts.VerifyAndAdd(idx, share)
+		verifAssert((err != nil) == (idx < 0 || idx >= 3), "VerifyAndAdd: error exactly for out-of-range indices on a fresh object")
+		if shareLen != SignatureLenBLSBLS12381 {
+			verifAssert(!v, "VerifyAndAdd: wrong-length share is not valid")
+		}
+	}
+	tp, err := NewBLSThresholdSignatureParticipant(gpk, pks, 1, 0, sks[0], msg, "c09-tag")
+	verifAssert(err == nil, "participant constructor with consistent keys")
+	own, err := tp.SignShare()
+	verifAssert(bAnd(err == nil, len(own) == SignatureLenBLSBLS12381), "SignShare")
+	sig, err := ts.ThresholdSignature()
+	verifAssert(bOr(sig == nil, err == nil), "ThresholdSignature: no signature together with an error")
+	if shareLen != SignatureLenBLSBLS12381 {
+		verifAssert(sig == nil, "ThresholdSignature: wrong-length shares never give a signature")
+	}
+	_ = ts.EnoughShares()
+	verifReach("threshold stateful")
+}
+
+// zzC09_threshold_ctor: constructors of the stateful objects with arbitrary integers
+func zzC09_threshold_ctor() {
 	seed := nondetBytes(KeyGenSeedMinLen)
 	sks, pks, gpk, _ := BLSThresholdKeyGen(3, 1, seed)
 	msg := nondetBytes(2)
@@ -242,38 +351,7 @@ func zzC09_threshold_stateful(shareLen int, trusted bool) {
 	}
 	_, err = NewBLSThresholdSignatureInspector(gpk, pks[:1], 1, msg, "c09-tag")
 	verifAssert(IsInvalidInputsError(err), "inspector constructor rejects a group of one")
-	ts, err := NewBLSThresholdSignatureInspector(gpk, pks, 1, msg, "c09-tag")
-	verifAssume(err == nil)
-	idx := nondetInt()
-	share := nondetBytes(shareLen)
-	ok, err := ts.VerifyShare(idx, share)
-	if idx < 0 || idx >= 3 {
-		verifAssert(bAnd(!ok, IsInvalidInputsError(err)), "VerifyShare: out-of-range index is an invalid-input error")
-	} else if shareLen != SignatureLenBLSBLS12381 {
-		verifAssert(bAnd(!ok, err == nil), "VerifyShare: wrong-length share is a false verdict")
-	}
-	_, err = ts.HasShare(idx)
-	verifAssert((err != nil) == (idx < 0 || idx >= 3), "HasShare: error exactly for out-of-range indices")
-	_, _ = ts.VerifyThresholdSignature(share)
-	if trusted {
-		_, err = ts.TrustedAdd(idx, share)
-		verifAssert((err != nil) == (idx < 0 || idx >= 3), "TrustedAdd: error exactly for out-of-range indices on a fresh object")
-		idx2 := nondetInt()
-		_, _ = ts.TrustedAdd(idx2, nondetBytes(shareLen))
-	} else {
-		v, _, err := ts.VerifyAndAdd(idx, share)
-		verifAssert((err != nil) == (idx < 0 || idx >= 3), "VerifyAndAdd: error exactly for out-of-range indices on a fresh object")
-		if shareLen != SignatureLenBLSBLS12381 {
-			verifAssert(!v, "VerifyAndAdd: wrong-length share is not valid")
-		}
-	}
-	sig, err := ts.ThresholdSignature()
-	verifAssert(bOr(sig == nil, err == nil), "ThresholdSignature: no signature together with an error")
-	if shareLen != SignatureLenBLSBLS12381 {
-		verifAssert(sig == nil, "ThresholdSignature: wrong-length shares never give a signature")
-	}
-	_ = ts.EnoughShares()
-	verifReach("threshold stateful")
+	verifReach("threshold ctor")
 }
 
 // zzC09_getters: the accessor methods of keys
